@@ -33,7 +33,7 @@ echo $? > $V/build/coq.status
 need=0
 [ -x $V/build/driver ] || need=1
 if [ $need = 0 ]; then
-  for f in $V/coq/Base/*.vo $V/coq/Model/*.vo $V/coq/Gen/*.vo $V/coq/Extract/Extract.v $V/ocaml/driver.ml; do
+  for f in $V/coq/Base/*.vo $V/coq/Regex/*.vo $V/coq/Model/*.vo $V/coq/Gen/*.vo $V/coq/Extract/Extract.v $V/ocaml/driver.ml; do
     [ "$f" -nt $V/build/driver ] && need=1
   done
 fi
